@@ -6,6 +6,7 @@ set -u
 for d in /verif/seeded/*/; do
   s=$(basename $d)
   [ -f $d/patch.diff ] || continue
+  grep -q "\"obsolete\"" $d/meta.json 2>/dev/null && continue
   if git -C /repo apply --check $d/patch.diff 2>/dev/null; then continue; fi
   W=$(mktemp -d /tmp/rebase.XXXXXX)
   cp -r /repo/rdflib $W/rdflib; (cd $W && git init -q . && git add -A >/dev/null 2>&1 && git -c user.email=x -c user.name=x commit -qm base >/dev/null)
